@@ -57,11 +57,15 @@ let block content a b =
   res_str (fun rs -> "[" ^ String.concat "" (List.map (fun r -> fmt_range r ^ ",") rs) ^ "]")
     (block_indent_remover content a b)
 
+(* the current instant: "<seconds>" or "<seconds>.<nanoseconds>"; the model works with whole seconds
+   (a fraction below one second never changes the comparison with an instant on the second grid) *)
+let now_of s = z_of_int (int_of_string (match String.index_opt s '.' with Some i -> String.sub s 0 i | None -> s))
+
 let split_targets s = if s = "." then [] else List.map unhex (String.split_on_char ',' s)
 
 let doc_case id f =
   let ds = unhex f.(0) and de = unhex f.(1) and src = unhex f.(2) in
-  let cfg = { tl_tag = unhex f.(3); tl_offset = unhex f.(4); now = z_of_int (int_of_string f.(5));
+  let cfg = { tl_tag = unhex f.(3); tl_offset = unhex f.(4); now = now_of f.(5);
               rm_tag = unhex f.(6); targets = split_targets f.(7) } in
   let toks = tokenize src ds de in
   Printf.printf "%s tok %s\n" id (res_str fmt_tokens toks);
@@ -136,7 +140,7 @@ let s_of_string s = List.init (String.length s) (fun i -> n_of_int (Char.code s.
 let time_case id f =
   let el = { el_name = s_of_string "t"; el_attrs = attr_field (s_of_string "to") f.(0) } in
   Printf.printf "%s evalt %s\n" id
-    (if time_is_removal (unhex f.(1)) (z_of_int (int_of_string f.(2))) el then "1" else "0")
+    (if time_is_removal (unhex f.(1)) (now_of f.(2)) el then "1" else "0")
 
 let marker_case id f =
   let el = { el_name = s_of_string "m"; el_attrs = attr_field (s_of_string "name") f.(0) } in
